@@ -245,28 +245,35 @@ def _quaternion_to_euler(quaternion: torch.Tensor, seq: str, extrinsic: bool):
     half_sum = torch.atan2(b, a)
     half_diff = torch.atan2(d, c)
 
+    # Check if angles_1 is equal to is 0 (case=1) or pi (case=2), causing a singularity,
+    # i.e. a gimble lock. case=0 is the normal.
+    # This has to be checked before angles_1 is shifted for the non-symmetric sequences.
+    case = 1 * (torch.abs(angles_1) <= 1e-7) + 2 * (torch.abs(angles_1 - torch.pi) <= 1e-7)
+
     angles_0 = half_sum - half_diff
     angles_2 = half_sum + half_diff
 
-    if not symmetric:
-        angles_2 *= sign
-        angles_1 -= torch.pi / 2
     if not extrinsic:
         # flip first and last rotation
         angles_2, angles_0 = angles_0, angles_2
 
-    # Check if angles_1 is equal to is 0 (case=1) or pi (case=2), causing a singularity,
-    # i.e. a gimble lock. case=0 is the normal.
-    case = 1 * (torch.abs(angles_1) <= 1e-7) + 2 * (torch.abs(angles_1 - torch.pi) <= 1e-7)
     # if Gimbal lock, sett last angle to 0 and use 2 * half_sum / 2 * half_diff for first angle.
     angles_2 = (case == 0) * angles_2
     angles_0 = (
         (case == 0) * angles_0 + (case == 1) * 2 * half_sum + (case == 2) * 2 * half_diff * (-1 if extrinsic else 1)
     )
 
+    if not symmetric:
+        # the sign belongs to the third angle of the (extrinsic) algorithm
+        if extrinsic:
+            angles_2 = angles_2 * sign
+        else:
+            angles_0 = angles_0 * sign
+        angles_1 = angles_1 - torch.pi / 2
+
     angles = torch.stack((angles_0, angles_1, angles_2), -1)
-    angles += (angles < -torch.pi) * 2 * torch.pi
-    angles -= (angles > torch.pi) * 2 * torch.pi
+    angles = torch.where(angles < -torch.pi, angles + 2 * torch.pi, angles)
+    angles = torch.where(angles > torch.pi, angles - 2 * torch.pi, angles)
     return angles
 
 
